@@ -48,7 +48,7 @@ for k, what in (("exp", "literals with an exponent and no dot (1e1000, 1E2, -2e-
                 ("reject", "a sign alone, a literal ending in `.` or `e`, or a sign followed by a non-digit is a reported error - no unwrap on a failed integer parse"),
                 ("inf", "+Infinity / -Infinity read as the infinite floats"),
                 ("int", "an integer literal is handed to Num::from_str_radix whole (sign included, nothing after it), in base 10, and that function's answer is returned (the integer parser itself is core / num-bigint, replaced by a ghost stub)")):
-    ob(f"O-C07-parse-num-{k}", ["C07", "C05"] if k == "reject" else ["C07"], J, f"c07_parse_num_{k}", "parse_num (the JSON / XJON / CSV number reader) on literals run through hifijson's real slice lexer: " + what, ["jaq-json/src/read.rs::parse_num"], label="point", kind="point", composes_dependency=True, **({"stubs": ["from_str_radix"]} if k == "int" else {}))
+    ob(f"O-C07-parse-num-{k}", ["C07", "C05"] if k == "reject" else ["C07"], J, f"c07_parse_num_{k}", "parse_num (the JSON / XJON / CSV number reader) on literals run through hifijson's real slice lexer: " + what, ["jaq-json/src/read.rs::parse_num"], label="point", kind="point", composes_dependency=True, **({"stubs": ["from_str_radix"]} if k in ("int", "exp", "frac") else {}))
 
 FU = "jaq-json/src/funs.rs::"
 ob("O-C12-contains-arr", ["C12"], J, "c12_contains_arrays", "Val::contains on arrays of integers at four points: every element of the argument is contained in some element of the input - also when the argument is longer than the input ([1,2] contains [1,1,2]); [3] is not contained; the empty array is contained in everything and contains only itself", [FU + "Val::contains"], label="point", kind="point")
@@ -57,6 +57,9 @@ for k, what in (("arrays", "array argument: exactly the window positions i with 
                 ("bytes", "byte strings: window positions counted in bytes, the empty string nowhere"),
                 ("text", "text strings with multi-byte characters: positions counted in characters, the empty string nowhere")):
     ob(f"O-C12-indices-{k}", ["C12"], J, f"c12_indices_{k}", "Val::indices at points - " + what, [FU + "Val::indices"], label="point", kind="point")
+
+ob("O-C07-writebuf-utf8", ["C07"], J, "c07_write_buf_invalid_utf8", "write_buf (the writer behind tojson / tostring / @json) on the text string a, 0xFF, b: the invalid byte is written unchanged between the quotes (not replaced by U+FFFD), as the command-line writer does", ["jaq-json/src/write.rs::write_buf"], label="point", kind="point")
+ob("O-C07-writebuf-atoms", ["C07"], J, "c07_write_buf_atoms", "write_buf on null and true writes the four bytes of the literal", ["jaq-json/src/write.rs::write_buf"], label="point", kind="point")
 
 # ------------------------------------------------------------------------------------ C08
 ob("O-C08-float", ["C08"], J, "c08_float_cmp_order", "float_cmp is a total preorder on non-NaN floats (reflexive, antisymmetric, transitive over all triples), float_eq <=> Equal, and it agrees with IEEE <, ==, > (so -inf < finite < +inf, -0 == +0)", [NUM + "float_cmp", NUM + "float_eq"])
